@@ -54,12 +54,22 @@ type chunkReader struct {
 	i       int
 	dataEOF bool
 	got     []int
+	stalls  int // (0, nil) reads before every read that delivers data (round E, review C17-3)
+	stalled int
 }
 
 func (c *chunkReader) Read(p []byte) (int, error) {
 	if len(c.b) == 0 {
 		return 0, io.EOF
 	}
+	// a reader may return (0, nil): "nothing happened", legal for io.Reader (discouraged);
+	// bufio.Scanner tolerates 100 of them in a row.  Such a read delivers nothing, so it is
+	// not part of the schedule the model sees (`got` records the reads that delivered data).
+	if c.stalled < c.stalls && len(p) > 0 {
+		c.stalled++
+		return 0, nil
+	}
+	c.stalled = 0
 	n := len(c.b)
 	if len(c.sizes) > 0 {
 		n = c.sizes[c.i%len(c.sizes)]
@@ -86,9 +96,15 @@ func (c *chunkReader) Read(p []byte) (int, error) {
 type sched struct {
 	sizes   []int
 	dataEOF bool
+	stalls  int
 }
 
-func (s sched) String() string { return fmt.Sprintf("%v/eof=%v", s.sizes, s.dataEOF) }
+func (s sched) String() string {
+	if s.stalls > 0 {
+		return fmt.Sprintf("%v/eof=%v/stalls=%d", s.sizes, s.dataEOF, s.stalls)
+	}
+	return fmt.Sprintf("%v/eof=%v", s.sizes, s.dataEOF)
+}
 
 type event struct {
 	data  []byte
@@ -143,7 +159,7 @@ func watchdog(f func()) bool {
 
 func decode(doc []byte, s sched) decRes {
 	var res decRes
-	cr := &chunkReader{b: append([]byte(nil), doc...), sizes: s.sizes, dataEOF: s.dataEOF}
+	cr := &chunkReader{b: append([]byte(nil), doc...), sizes: s.sizes, dataEOF: s.dataEOF, stalls: s.stalls}
 	ok := watchdog(func() {
 		defer func() {
 			if p := recover(); p != nil {
@@ -307,7 +323,7 @@ type splitRes struct {
 // split runs a real bufio.Scanner with styling.Scan() and logs every call.
 func split(doc []byte, s sched, limit int) splitRes {
 	var res splitRes
-	cr := &chunkReader{b: append([]byte(nil), doc...), sizes: s.sizes, dataEOF: s.dataEOF}
+	cr := &chunkReader{b: append([]byte(nil), doc...), sizes: s.sizes, dataEOF: s.dataEOF, stalls: s.stalls}
 	f := styling.Scan()
 	pos := 0
 	var pending []call
@@ -707,6 +723,9 @@ func genDoc(rnd *common.Rand, maxSym int) []byte {
 
 func genSched(rnd *common.Rand) sched {
 	s := sched{dataEOF: rnd.Chance(1, 3)}
+	if rnd.Chance(1, 5) {
+		s.stalls = 1 + rnd.Intn(3)
+	}
 	n := 1 + rnd.Intn(4)
 	for i := 0; i < n; i++ {
 		k := 1 + rnd.Intn(3)
@@ -841,7 +860,7 @@ func Run(r *common.Run) error {
 				}
 				s.dataEOF = f[4] == "1"
 				if f[1] == "dec" {
-					c.doc(doc, append([]sched{s}, stdScheds...), 1+len(stdScheds), "replay")
+					c.doc(doc, append(append([]sched{s}, stdScheds...), sched{sizes: s.sizes, dataEOF: s.dataEOF, stalls: 1}, sched{sizes: s.sizes, dataEOF: s.dataEOF, stalls: 3}), 1+len(stdScheds), "replay")
 				} else {
 					lim, _ := strconv.Atoi(f[5])
 					if lim == bufio.MaxScanTokenSize {
@@ -879,7 +898,7 @@ func Run(r *common.Run) error {
 	// 1. corpus of past witnesses and the repo's own test inputs
 	for _, s := range corpus {
 		d := []byte(s)
-		c.doc(d, stdScheds, len(stdScheds), "corpus")
+		c.doc(d, append(append([]sched(nil), stdScheds...), sched{sizes: []int{1}, stalls: 1}, sched{sizes: []int{3}, stalls: 3}, sched{sizes: []int{2, 1}, dataEOF: true, stalls: 2}), len(stdScheds), "corpus")
 		for _, sc := range []sched{{}, {sizes: []int{1}}, {sizes: []int{2}, dataEOF: true}} {
 			c.splitDoc(d, sc, 0)
 			c.splitDoc(d, sc, 8)
